@@ -284,7 +284,8 @@ pub fn oracle(h: &Hist, obs: &[Vec<Obs>], st: &mut Stats) -> Vec<String> {
     let mut live: HashMap<Vec<u8>, (Vec<u8>, u64)> = HashMap::new(); // id -> (first live publication, expiry)
     let mut firsts: HashMap<Vec<u8>, Vec<Vec<u8>>> = HashMap::new();
     let mut outstanding: Vec<(usize, Vec<u8>, u64)> = Vec::new(); // unanswered asks (conn, id, own expiry)
-    let mut now: u64 = 0; // time of the last operation that ran the relay's cleanup
+    let mut now: u64 = 0; // clock of the last ask / publication (the operations that run the relay's cleanup)
+    let mut clock: u64 = 0; // latest clock value any operation was performed at
     let mut realop: u64 = 0; // number of send/ask operations so far
     let mut drained_at: HashMap<usize, u64> = HashMap::new(); // conn -> realop count at its last drain
     for (i, op) in h.ops.iter().enumerate() {
@@ -300,6 +301,7 @@ pub fn oracle(h: &Hist, obs: &[Vec<Obs>], st: &mut Stats) -> Vec<String> {
         match op {
             Op::Send { c, f, t } => {
                 realop += 1;
+                clock = clock.max(*t);
                 let ok = matches!(ob.first(), Some(Obs::Send(true)));
                 if ok != (f.len() >= HDR) {
                     fails.push(format!("sink-result op#{} len={} ok={}", i, f.len(), ok));
@@ -333,6 +335,7 @@ pub fn oracle(h: &Hist, obs: &[Vec<Obs>], st: &mut Stats) -> Vec<String> {
             }
             Op::RelaySend { f, t } => {
                 realop += 1;
+                clock = clock.max(*t);
                 if f.len() > HDR {
                     st.add("op.publish_relay_send", 1);
                     now = *t;
@@ -395,16 +398,18 @@ pub fn oracle(h: &Hist, obs: &[Vec<Obs>], st: &mut Stats) -> Vec<String> {
                 if l.is_empty() {
                     st.add("outcome.messages_empty", 1);
                 }
-                // live entries are kept
+                // live entries are kept: an entry may be forgotten only once the clock has reached its expiry
+                // (`clock` is the latest clock value of ANY operation, so a relay that also cleaned up while
+                // ignoring a malformed frame would not be reported)
                 for (id, (_, e)) in live.iter() {
-                    if *e > now && !l.contains(id) {
-                        fails.push(format!("ready-kept-until-own-ttl op#{} id={} expiry={} now={}", i, hex(id), e, now));
+                    if *e > clock && !l.contains(id) {
+                        fails.push(format!("ready-kept-until-own-ttl op#{} id={} expiry={} now={}", i, hex(id), e, clock));
                     }
                 }
                 for (_, id, e) in outstanding.iter() {
                     let superseded = matches!(live.get(id), Some((_, e2)) if *e2 > now);
-                    if *e > now && !superseded && !l.contains(id) {
-                        fails.push(format!("waiters-kept-until-max op#{} id={} expiry={} now={}", i, hex(id), e, now));
+                    if *e > clock && !superseded && !l.contains(id) {
+                        fails.push(format!("waiters-kept-until-max op#{} id={} expiry={} now={}", i, hex(id), e, clock));
                     }
                 }
                 // nothing whose lifetime ended before `now` remains
